@@ -251,6 +251,24 @@ func runScalars(c *vf.Check, g *groups.G) {
 			vals = append(vals, sv{"Pick(" + a.Name + ")", g.Scalar().Pick(alpha.Stream("c03-pick-" + a.Name)), nil})
 		}
 		vals = append(vals, sv{"SetInt64(-7)", g.Scalar().SetInt64(-7), new(big.Int).Sub(q, big.NewInt(7))})
+		// Pick under streams whose first bytes are the encodings of q-1, q, q+1 (either byte order) and all ones:
+		// a sampler that lets a candidate >= q through produces a scalar that is not in reduced form
+		ql := (q.BitLen() + 7) / 8
+		for _, cand := range []struct {
+			n string
+			v *big.Int
+		}{{"q-1", new(big.Int).Sub(q, big.NewInt(1))}, {"q", q}, {"q+1", new(big.Int).Add(q, big.NewInt(1))}} {
+			be := cand.v.FillBytes(make([]byte, ql))
+			le := make([]byte, ql)
+			for i := range be {
+				le[ql-1-i] = be[i]
+			}
+			for on, pre := range map[string][]byte{"BE": be, "LE": le} {
+				st := &alpha.PrefixStream{Prefix: append([]byte{}, pre...), Next: alpha.Stream("c03-pick-tail")}
+				vals = append(vals, sv{"Pick(stream starting with " + cand.n + " " + on + ")", g.Scalar().Pick(st), nil})
+			}
+		}
+		vals = append(vals, sv{"Pick(0xff..)", g.Scalar().Pick(&alpha.PrefixStream{Prefix: bytes.Repeat([]byte{0xff}, ql+8), Next: alpha.Stream("c03-pick-tail")}), nil})
 		ok = true
 	})
 	if !ok {
